@@ -39,6 +39,12 @@ func (g *gzipResponseWriter) WriteHeader(code int) {
 	if g.wroteHeader {
 		return
 	}
+	// Interim (1xx) responses go out as they come; the status of the
+	// response is the final one that follows
+	if code >= 100 && code < 200 && code != http.StatusSwitchingProtocols {
+		g.ResponseWriter.WriteHeader(code)
+		return
+	}
 
 	g.statusCode = code
 	g.wroteHeader = true
